@@ -362,7 +362,7 @@ static CORPUS: OnceLock<Vec<(String, String)>> = OnceLock::new();
 /// The seed corpus: `/verif/corpus/*.oal`, sorted by name.
 pub fn corpus() -> &'static [(String, String)] {
     CORPUS.get_or_init(|| {
-        let dir = std::path::Path::new(crate::engine::VERIF_DIR).join("corpus");
+        let dir = std::path::Path::new(&crate::engine::verif_dir()).join("corpus");
         let mut v = Vec::new();
         if let Ok(rd) = std::fs::read_dir(&dir) {
             for e in rd.flatten() {
